@@ -10,8 +10,11 @@ cd "$WT"
 PYTHONPATH="$WT" timeout 600 /venv/bin/python -W ignore "$SEED/demo.py" >/tmp/seedcheck.$$.clean 2>&1; C=$?
 git apply "$SEED/patch.diff" || { echo "patch does not apply"; exit 2; }
 PYTHONPATH="$WT" timeout 600 /venv/bin/python -W ignore "$SEED/demo.py" >/tmp/seedcheck.$$.patched 2>&1; P=$?
-cd /verif
+VC="$(mktemp -d /tmp/vf-seedv-XXXXXX)"   # scratch copy of /verif: evidence/ and replays/ of the real tree stay untouched
+rsync -a --exclude .git --exclude seeded /verif/ "$VC/"
+cd "$VC"
 VERIF_REPO="$WT" VERIF_NOSHRINK=1 ./check "$ID" "$TIER" > /tmp/seedcheck.$$.check 2>&1; K=$?
+cd /verif; rm -rf "$VC"
 grep -E "VIOLATION|bucket:|cases,|HARNESS" /tmp/seedcheck.$$.check | cut -c1-220 | head -12
 if [ "${SEED_TESTS:-}" != "" ]; then
   cd "$WT"; PYTHONPATH="$WT" timeout 2400 /venv/bin/python -m pytest -q -p no:cacheprovider --timeout=900 $SEED_TESTS -q 2>&1 | grep -E "^FAILED|^ERROR" | sort > /tmp/seedcheck.$$.tests
